@@ -76,6 +76,15 @@ META = {
         "R9: every id MyST itself gives to a node is registered with the document: a node built with ids=[...] or written to "
         "x['ids'] is passed to note_*_target / set_id on every path; library calls that take a ready-made id and then skip the "
         "registration (sphinx make_glossary_term(node_id=...), shape re-read from the Sphinx source) get node_id=None. "
+        "Round 10 additions: R3 - in a Transform, an id looked up in the document's registries / slug table becomes a refid only under a "
+        "test that it is among the ids collected from the elements in the tree (the registries keep elements a directive parsed and "
+        "dropped). R5 - one node held in a local/parameter gets a parent at most once per path, counting library calls that append "
+        "their content argument to what they build (make_refnode child, Domain.resolve_xref/resolve_any_xref contnode). R7 - because "
+        "inline render methods copy an `id` attribute, a package transform ordered after docutils' Contents (priority read from the "
+        "docutils source) clears the ids of the copies in the contents topic and is registered in both front ends. R8 - a node built "
+        "locally and filled by state.nested_parse is handed on (itself or something derived from its children) by every return that "
+        "follows the parse. R9 - a preset id (ids=[x]) is used only where `x not in document.ids` is known, since docutils' set_id only "
+        "reports a clash of preset ids (read from the docutils source). "
         "R6: the first child a new section can receive, on every path, is its nodes.title (interprocedural may-append summary: "
         "direct appends, note_*_target(_, msgnode), create_warning(append_to=), becoming the current node; parameter guards of "
         "helpers evaluated against the call's literal arguments). "
@@ -113,7 +122,11 @@ META = {
         "a `for` target named in the loop over footnote registries / nameids items has the docutils meaning of that registry",
         "the indirect-target branch of ResolveAnchorIds (labelid = node['names'][0]) is unreachable: MyST never calls "
         "note_indirect_target on the document it renders into (tabled, shape re-verified on every run)",
-        "render_hr attaching a transition under any parent is a known finding (F9), listed in known_findings.json",
+        "three genuine, deliberately unrepaired findings are listed in known_findings.json: render_hr attaches a transition under any "
+        "parent (F9: since 2ea1b0a it is shielded from docutils' Transitions transform and put back, so no crash and no relocation, but "
+        "the final tree still has it under the block quote / list item / admonition); the heading level map is re-rooted at the "
+        "directive's node for match_titles nested parses (4629fdf: sections directly under desc_content / only); eval-rst moves the "
+        "children of a scratch document into the tree without its registries",
     ],
 }
 
@@ -835,6 +848,11 @@ class _StructTrace:
                 if fname in REGISTRY_CALLS:
                     continue
                 raise Unsupported(f"{self.what} `{name}` is passed to `{short(call, 60)}` in {fi.qualname}, whose effect is not modelled")
+            if isinstance(p, ast.IfExp) and (p.body is u or p.orelse is u) and isinstance(parent(p), ast.Assign) and parent(p).value is p and all(isinstance(t, ast.Name) for t in parent(p).targets):
+                # `alias = node if <cond> else <other>`: the alias may be the node
+                for t in parent(p).targets:
+                    self.trace(fi, t.id, via, depth + 1)
+                continue
             if isinstance(p, ast.Assign) and p.value is u:
                 for t in p.targets:
                     tt = unparse(t)
@@ -979,6 +997,15 @@ def _child_events(corpus: Corpus, fi: FunctionInfo, name: str, call_ctx: ast.Cal
     for node, recv, vals, how in _attach_events(fi):
         if isinstance(recv, ast.Name) and recv.id == name and how in ("append", "insert", "extend", "+="):
             add(node, f"`{short(node, 60)}`", vals[0] if len(vals) == 1 else None)
+    # local aliases: `x = name` / `x = name if cond else other` (x may be the node)
+    for n in fi.local_nodes():
+        if isinstance(n, ast.Assign) and all(isinstance(t, ast.Name) for t in n.targets):
+            v = n.value
+            cands = [v] if isinstance(v, ast.Name) else ([v.body, v.orelse] if isinstance(v, ast.IfExp) else [])
+            if any(isinstance(c, ast.Name) and c.id == name and not _shadowed(c) for c in cands):
+                for t in n.targets:
+                    if t.id != name:
+                        out.extend(_child_events(corpus, fi, t.id, call_ctx, depth + 1, seen))
     for n in fi.local_nodes():
         if isinstance(n, ast.Assign) and isinstance(n.value, ast.Name) and n.value.id == name and not _shadowed(n.value):
             for t in n.targets:
@@ -2085,6 +2112,7 @@ class _Refid:
         reg = e.value.id
         cfg = get_cfg(fi)
         key = unparse(e.slice)
+        self.lookups = getattr(self, "lookups", []) + [(fi, reg, key, idx)]
         gs = cfg.guards(cfg.stmt_of(at))
         found = any(isinstance(t, ast.Compare) and len(t.ops) == 1 and ((pol and isinstance(t.ops[0], ast.In)) or (not pol and isinstance(t.ops[0], ast.NotIn))) and unparse(t.left) == key and unparse(t.comparators[0]) == reg for t, pol in gs)
         if not found and found_var is not None:
@@ -2173,6 +2201,7 @@ def r3_refid_provenance(corpus: Corpus, rep: Report, tier: str):
                 rep.ok("C03.R3", key, site, why)
                 for nfi, nst, nwhy in getattr(tr, "_name_sites", []):
                     _judge_name_as_id(nfi, nst, nwhy, rep)
+                _judge_in_tree(corpus, rep, tr, fi, cfg, st, val, key, site)
                 continue
             start = ("T", cfg.loops[st]) if st in cfg.loops else ENTRY
             exists, used = _path_avoiding_with_facts(corpus, fi, start, st, lambda x: _is_missing_warning(x, corpus, fi))
@@ -2229,6 +2258,42 @@ def _judge_per_binding(corpus: Corpus, rep: Report, tr, fi: FunctionInfo, cfg, s
         rep.ok("C03.R3", key, site, "; ".join(dict.fromkeys(notes))[:300])
         for nfi, nst, nwhy in getattr(tr, "_name_sites", []):
             _judge_name_as_id(nfi, nst, nwhy, rep)
+        _judge_in_tree(corpus, rep, tr, fi, cfg, st, ast.Name(id=name, ctx=ast.Load()), key, site)
+
+
+def _is_tree_id_set(fi: FunctionInfo, e: ast.expr) -> bool:
+    """A set/list of the ids of the elements that are in the document now (built by walking the tree)."""
+    if isinstance(e, ast.Name):
+        v = _single_value(fi, e.id)
+        return v is not None and _is_tree_id_set(fi, v)
+    if isinstance(e, ast.Call) and dotted(e.func) in ("set", "frozenset", "list") and len(e.args) == 1:
+        return _is_tree_id_set(fi, e.args[0])
+    if isinstance(e, (ast.SetComp, ast.ListComp, ast.GeneratorExp)) and e.generators:
+        walk = unparse(e.generators[0].iter)
+        walks_tree = any(w in walk for w in ("findall(", ".traverse(")) and "document" in walk
+        takes_ids = any(isinstance(x, ast.Subscript) and isinstance(x.slice, ast.Constant) and x.slice.value == "ids" for g_ in e.generators for x in ast.walk(g_.iter)) or (isinstance(e.elt, ast.Subscript) and unparse(e.elt.slice) == "'ids'")
+        return walks_tree and takes_ids
+    return False
+
+
+def _judge_in_tree(corpus: Corpus, rep: Report, tr, fi: FunctionInfo, cfg, st, val: ast.expr, key: str, site: str) -> None:
+    """In a transform, an id looked up in the document's registries (names -> ids, heading slugs) is used as a refid only
+    after it was confirmed to be the id of an element that is in the tree: the registries also keep elements that a
+    directive registered while parsing its content and then dropped."""
+    if fi.cls is None or not any("Transform" in b for b in fi.cls.bases):
+        return
+    looks = [(reg, k, i) for lfi, reg, k, i in getattr(tr, "lookups", []) if lfi.fq == fi.fq]
+    if not looks:
+        return
+    wanted = {unparse(val)}
+    for reg, k, i in looks:
+        wanted.add(f"{reg}[{k}][{i}]" if i is not None else f"{reg}[{k}]")
+    confirmed = any(pol and isinstance(t, ast.Compare) and len(t.ops) == 1 and isinstance(t.ops[0], ast.In) and unparse(t.left) in wanted and _is_tree_id_set(fi, t.comparators[0]) for t, pol in cfg.guards(st))
+    k2 = key + "|id is the id of an element in the tree"
+    if confirmed:
+        rep.ok("C03.R3", k2, site, "looked-up id confirmed against the ids collected from the tree")
+    else:
+        rep.violation("C03.R3", k2, site, f"the id comes from `{looks[0][0]}` (document registries / slug table) and is not tested against the ids of the elements actually in the tree: the registries keep entries of elements a directive parsed and then dropped (a figure whose caption is rejected), so the link gets a refid that no element has, without a 'target not found' warning")
 
 
 def _judge_name_as_id(fi: FunctionInfo, st: ast.AST, why: str, rep: Report) -> None:
@@ -2747,6 +2812,80 @@ def _returned_collections_disjoint(corpus: Corpus, rep: Report) -> None:
         rep.error("C03.R5", "expected at least MockInliner.parse returning (nodes, messages)")
 
 
+LIB_ATTACHERS = {
+    # callee (resolved name, or method name) -> (positional index, keyword) of the node it appends to its result
+    "sphinx.util.nodes.make_refnode": (4, "child"),
+    ".resolve_any_xref": (5, "contnode"),
+    ".resolve_xref": (6, "contnode"),
+}
+
+
+def _lib_attach_args(fi: FunctionInfo, c: ast.Call) -> list[ast.expr]:
+    spec = LIB_ATTACHERS.get(_resolved(fi, c.func) or "")
+    if spec is None and isinstance(c.func, ast.Attribute):
+        spec = LIB_ATTACHERS.get("." + c.func.attr)
+    if spec is None or any(isinstance(a, ast.Starred) for a in c.args):
+        return []
+    out = []
+    if len(c.args) > spec[0]:
+        out.append(c.args[spec[0]])
+    k = kwarg(c, spec[1])
+    if k is not None:
+        out.append(k)
+    return out
+
+
+def _one_node_one_attach(corpus: Corpus, rep: Report) -> None:
+    """One node object held in a local/parameter is given a parent at most once per path: appending it to two nodes, or
+    handing it as the content node to two library calls that append it to what they build (make_refnode,
+    Domain.resolve_xref / resolve_any_xref), leaves it listed under both with .parent naming only the last."""
+    for fi in corpus.all_functions():
+        if fi.is_lambda or fi.module.name.endswith(("._docs", ".parse_html")) or "docutils.nodes" not in set(fi.module.imports.values()):
+            continue
+        events: dict[str, list[tuple[ast.AST, str]]] = {}
+        for node, recv, vals, how in _attach_events(fi):
+            if how not in MOVE_HOWS or _is_plain_container(fi, recv):
+                continue
+            for v in vals:
+                if isinstance(v, ast.Name) and not _shadowed(v):
+                    events.setdefault(v.id, []).append((node, f"`{short(node, 50)}`"))
+        lib = False
+        for c in fi.local_nodes():
+            if isinstance(c, ast.Call):
+                for a in _lib_attach_args(fi, c):
+                    if isinstance(a, ast.Name) and not _shadowed(a):
+                        events.setdefault(a.id, []).append((c, f"`{short(c, 50)}` (appends its content argument to the node it returns)"))
+                        lib = True
+        for name, evs in events.items():
+            if len(evs) < 2 and not lib:
+                continue
+            if not (len(evs) >= 2 or any(isinstance(a, (ast.For, ast.While)) for n_, _ in evs for a in _ancestors(n_))):
+                continue
+            cfg = get_cfg(fi)
+            rebinds = {cfg.stmt_of(b) for b, _, _ in _bindings(fi, name) if not isinstance(b, ast.AugAssign)}
+            discards = {cfg.stmt_of(x) for x in fi.local_nodes() if _is_discard_of(x, name, fi)}
+            stop = lambda x: x in rebinds or x in discards
+            bad = None
+            for a, da in evs:
+                sa = cfg.stmt_of(a)
+                for b, db in evs:
+                    sb = cfg.stmt_of(b)
+                    if a is b and not any(isinstance(l, (ast.For, ast.While)) for l in _ancestors(a)):
+                        continue
+                    if a is not b and sa is sb:
+                        bad = (da, db)
+                    elif any(cfg.paths_avoiding(s_, sb, stop) for s_ in cfg.succ.get(sa, []) if not stop(s_)):
+                        bad = (da, db)
+            key = f"{fi.fq}|`{name}` gets one parent per path"
+            site = fi.module.site(evs[0][0])
+            rep.saw_function(fi.fq)
+            if bad:
+                same = bad[0] == bad[1]
+                rep.violation("C03.R5", key, site, (f"{bad[0]} runs once per loop iteration with the same node `{name}`" if same else f"{bad[0]} and {bad[1]} both give the node `{name}` a parent on one path") + ": it is then listed under several parents while .parent names only the last (hand each one its own `.deepcopy()`)")
+            else:
+                rep.ok("C03.R5", key, site, f"{len(evs)} attach site(s), never two on one path")
+
+
 def _attach_and_return(corpus: Corpus, rep: Report) -> None:
     """create_warning(..., append_to=X) attaches the message node to X *and* returns it: a result obtained
     that way must not be attached again (directly, or by a caller that attaches the returned collection)."""
@@ -2918,6 +3057,7 @@ def r5_single_parent(corpus: Corpus, rep: Report, tier: str):
     _child_list_writes(corpus, rep)
     _cached_node_results(corpus, rep)
     _returned_collections_disjoint(corpus, rep)
+    _one_node_one_attach(corpus, rep)
     rep.expect_min("C03.R5", 3, "CollectFootnotes re-attach; children moves in ResolveAnchorIds.apply (2) and the Sphinx resolver (9 judged instances on the pinned tree)")
 
 
@@ -2965,6 +3105,66 @@ def _ids_transfers(fi: FunctionInfo) -> list[tuple[ast.AST, str, str, str]]:
                 tgt = unparse(p_.targets[0]) if isinstance(p_, ast.Assign) else short(n, 30)
                 out.append((n, kw.value.id, tgt, f"`ids={unparse(kw)}`"))
     return out
+
+
+def _contents_copies_lose_ids(corpus: Corpus, rep: Report) -> None:
+    """docutils' `contents` directive builds its entries from deep copies of the section titles (transforms/parts.py,
+    Contents) and strips only what rST can put into a title.  MyST can put an id on any inline element of a heading
+    (copy_attributes with the "id" key in inline render methods), so a transform ordered after Contents must take the
+    ids off the copies, in both front ends."""
+    base = corpus.mod("mdit_to_docutils.base")
+    premise = any(
+        isinstance(c, ast.Call) and isinstance(c.func, ast.Attribute) and c.func.attr == "copy_attributes" and any(isinstance(a, (ast.Tuple, ast.List)) and "id" in (_literal_container(a) or []) for a in list(c.args) + [k.value for k in c.keywords])
+        for q, f in base.functions.items() if f.name in ("render_span", "render_code_inline", "render_image", "render_link_url", "render_link") for c in f.local_nodes()
+    )
+    if not premise:
+        rep.listed("C03.R7", "package|no inline render method copies an id attribute", "myst_parser", "nothing to strip from contents copies")
+        return
+    parts = corpus.sibling("docutils/transforms/parts.py")
+    rep.saw_sibling(parts.rel)
+    ci = parts.classes.get("Contents")
+    prio = None
+    if ci is not None:
+        for st in ci.node.body:
+            if isinstance(st, ast.Assign) and unparse(st.targets[0]) == "default_priority" and isinstance(st.value, ast.Constant):
+                prio = st.value.value
+    copies = ci is not None and any(isinstance(c, ast.Call) and isinstance(c.func, ast.Attribute) and c.func.attr in ("deepcopy", "walkabout", "get_tree_copy") for c in ast.walk(parts.tree))
+    if prio is None or not copies:
+        rep.error("C03.R7", "docutils transforms/parts.py: Contents no longer has a constant default_priority / copies titles (sibling changed)")
+        return
+    # candidate transforms of the package: write x["ids"] for elements below a topic of class "contents", after Contents
+    cands = []
+    for ci_ in corpus.all_classes():
+        ap = ci_.methods.get("apply")
+        if ap is None:
+            continue
+        txt = unparse(ap.node)
+        writes_ids = any(isinstance(n, (ast.Assign, ast.Delete)) and any(isinstance(t, ast.Subscript) and isinstance(t.slice, ast.Constant) and t.slice.value == "ids" for tt in (n.targets if hasattr(n, "targets") else []) for t in ([tt] if not isinstance(tt, (ast.Tuple, ast.List)) else tt.elts)) for n in ap.local_nodes())
+        if not (writes_ids and "contents" in txt and "topic" in txt):
+            continue
+        p_ = None
+        for st in ci_.node.body:
+            if isinstance(st, ast.Assign) and unparse(st.targets[0]) == "default_priority":
+                try:
+                    p_ = ci_.module.eval_const(st.value)
+                except Exception:
+                    p_ = None
+        cands.append((ci_, p_))
+    key0 = "package|ids on inline heading content are taken off the copies docutils' contents directive makes"
+    good = [c for c, p_ in cands if isinstance(p_, int) and p_ > prio]
+    if not good:
+        rep.violation("C03.R7", key0, base.rel, f"no transform ordered after docutils' Contents (priority {prio}) clears the ids of the elements inside the contents topic: an inline element of a heading that carries an id ({{#id}} with attrs_inline) appears twice in the document with the same id" + (f" (found {cands[0][0].name} with priority {cands[0][1]}: not after Contents)" if cands else ""))
+        return
+    t_ = good[0]
+    rep.ok("C03.R7", key0, t_.module.site(t_.node), f"{t_.name} (priority > {prio})")
+    for modname, q in (("parsers.docutils_", "Parser.get_transforms"), ("parsers.sphinx_", "MystParser.get_transforms")):
+        f = corpus.func(f"{modname}:{q}")
+        listed = any(isinstance(n, ast.Name) and n.id == t_.name and f.module.resolve(n.id).endswith("." + t_.name) for n in f.local_nodes())
+        key = f"{f.fq}|registers the transform that strips ids from contents copies"
+        if listed:
+            rep.ok("C03.R7", key, f.site(), t_.name)
+        else:
+            rep.violation("C03.R7", key, f.site(), f"{t_.name} is not among the transforms of this front end: with a `contents` directive the ids of inline heading content are duplicated in the table of contents")
 
 
 @rule("C03.R7")
@@ -3024,6 +3224,7 @@ def r7_ids_moved_not_copied(corpus: Corpus, rep: Report, tier: str):
                 rep.violation("C03.R7", key, fi.module.site(leak), f"after `{short(leak, 60)}` some path leaves `{donor}` in the tree together with the node that received its ids: duplicate identifiers")
             else:
                 rep.ok("C03.R7", key, site, "replaced/removed on every path after the transfer")
+    _contents_copies_lose_ids(corpus, rep)
     rep.expect_min("C03.R7", 1, "the ids/names/dupnames hand-over to the pending_xref's inline in ResolveAnchorIds")
 
 
@@ -3104,6 +3305,64 @@ def _collected_nodes_not_dropped(corpus: Corpus, rep: Report) -> None:
                 rep.violation("C03.R8", f"{key0}|{short(r, 60)}", fi.module.site(r), f"`{short(r, 50)}` can follow `{short(adds[0], 50)}` (an earlier loop iteration) and returns without `{name}`: nodes already created are dropped while the names/ids they registered stay in the document, so a link to them gets a refid that is not in the tree and no 'target not found' warning")
 
 
+def _nested_parse_containers_kept(corpus: Corpus, rep: Report) -> None:
+    """A node built locally and filled by a nested parse (`state.nested_parse(lines, offset, node)`) holds content that
+    is already registered with the document (targets, footnote references, ids): every return that can follow the
+    parse must hand on the container or something derived from its children - not only an error message."""
+    for fi in corpus.all_functions():
+        if fi.is_lambda or fi.module.name.endswith("._docs"):
+            continue
+        for c in fi.local_nodes():
+            if not (isinstance(c, ast.Call) and isinstance(c.func, ast.Attribute) and c.func.attr == "nested_parse"):
+                continue
+            a = c.args[2] if len(c.args) > 2 else kwarg(c, "node")
+            if not isinstance(a, ast.Name) or a.id in fi.params:
+                continue
+            bs = [v for b, v, i in _bindings(fi, a.id) if not isinstance(b, ast.AugAssign)]
+            if not bs or not all(v is not None and isinstance(v, ast.Call) and _is_node_type(_ctor_class(fi, v)) for v in bs):
+                continue
+            cfg = get_cfg(fi)
+            rep.saw_function(fi.fq)
+            # everything that carries (part of) the parsed content
+            derived = {a.id}
+            changed = True
+            while changed:
+                changed = False
+                for n in fi.local_nodes():
+                    tg: list[str] = []
+                    src: ast.AST | None = None
+                    if isinstance(n, ast.Assign):
+                        src = n.value
+                        for t in n.targets:
+                            tg += [x.id for x in ast.walk(t) if isinstance(x, ast.Name) and isinstance(x.ctx, ast.Store)]
+                    elif isinstance(n, ast.AugAssign) and isinstance(n.target, ast.Name):
+                        src, tg = n.value, [n.target.id]
+                    elif isinstance(n, ast.Call) and isinstance(n.func, ast.Attribute) and n.func.attr in ("append", "extend", "insert") and isinstance(n.func.value, ast.Name):
+                        src, tg = ast.Tuple(elts=list(n.args), ctx=ast.Load()), [n.func.value.id]
+                    if src is None or not tg:
+                        continue
+                    if any(isinstance(x, ast.Name) and x.id in derived for x in ast.walk(src)):
+                        for t in tg:
+                            if t not in derived:
+                                derived.add(t)
+                                changed = True
+            # attached here to something that is not itself derived: the content is in the tree
+            attached = any(how in MOVE_HOWS and not (isinstance(recv, ast.Name) and recv.id in derived) and not _is_plain_container(fi, recv) and any(isinstance(x, ast.Name) and x.id in derived for v in vals for x in ast.walk(v)) for _, recv, vals, how in _attach_events(fi))
+            key0 = f"{fi.fq}|content parsed into `{a.id}` is handed on by every return"
+            site = fi.module.site(c)
+            st = cfg.stmt_of(c)
+            reach = cfg.reachable_from(st)
+            rets = [r for r in fi.local_nodes() if isinstance(r, ast.Return) and r in reach]
+            if attached or not rets:
+                rep.ok("C03.R8", key0, site, "the container is attached to the tree in this function" if attached else "no return follows the nested parse")
+                continue
+            bad = [r for r in rets if r.value is None or not any(isinstance(x, ast.Name) and x.id in derived for x in ast.walk(r.value))]
+            if not bad:
+                rep.ok("C03.R8", key0, site, f"{len(rets)} return(s) after the parse, each carries the container or nodes taken from it")
+            for r in bad:
+                rep.violation("C03.R8", f"{key0}|{short(r, 60)}", fi.module.site(r), f"`{short(r, 50)}` follows `{short(c, 50)}` and returns nothing of the parsed content: what the nested parse registered with the document (explicit targets, footnote references, ids) stays registered while the elements are dropped, so links and footnote back-links point at ids that are not in the tree")
+
+
 @rule("C03.R8")
 def r8_no_throwaway_render_root(corpus: Corpus, rep: Report, tier: str):
     rep.rule("C03.R8", "a fresh node that is made the current node for rendering is attached / handed on, not merely read as text; nodes collected from registering calls are returned on every path (rendering registers ids, footnote references and targets with the document)")
@@ -3156,6 +3415,7 @@ def r8_no_throwaway_render_root(corpus: Corpus, rep: Report, tier: str):
             else:
                 rep.violation("C03.R8", key, site, f"`{var}` is built here, made the current node while children are rendered into it, and afterwards only read as text / for attributes: whatever the render methods registered with the document (footnote references, targets, ids) now refers to nodes that are not in the tree")
     _collected_nodes_not_dropped(corpus, rep)
+    _nested_parse_containers_kept(corpus, rep)
     rep.expect_min("C03.R8", 8, "render roots built locally and entered without append=True (title, thead/tbody, definition-list and field-list parts, link nodes)")
 
 
@@ -3256,6 +3516,63 @@ def _scratch_document_children(corpus: Corpus, rep: Report) -> None:
                 rep.violation("C03.R9", key, site, f"`{short(moves[0], 50)}` moves nodes parsed into `{dname}` (created by `{short(made.value, 30)}`) into the real tree, but its {' and '.join(missing)} are neither shared with nor merged into the real document: ids allocated there can be allocated again (duplicate ids), and footnotes registered there are never numbered/labelled by docutils' Footnotes transform")
 
 
+def _preset_id_only_reported(corpus: Corpus) -> bool:
+    """docutils: document.set_id reports 'Duplicate ID' for a node that arrives with ids, without changing them."""
+
+    def compute():
+        m = corpus.sibling("docutils/nodes.py")
+        f = m.functions.get("document.set_id")
+        if f is None:
+            return False
+        return any(isinstance(c, ast.Call) and isinstance(c.func, ast.Attribute) and c.func.attr in ("severe", "error") and c.args and "Duplicate ID" in unparse(c.args[0]) for c in ast.walk(f.node))
+
+    return corpus.cache("c03-preset-id", compute)
+
+
+def _fresh_id_edges(fi: FunctionInfo, cfg, e_txt: str) -> set:
+    """Branch edges on which `<e> in <document>.ids` is known to be false."""
+    out = set()
+    for n in fi.local_nodes():
+        if isinstance(n, (ast.If, ast.While)):
+            for edge, pol in ((("T", n), True), (("F", n), False)):
+                for t, p_ in _truth_compare_facts(n.test, pol):
+                    if unparse(t.left) == e_txt and isinstance(t.comparators[0], ast.Attribute) and t.comparators[0].attr == "ids" and "document" in unparse(t.comparators[0].value):
+                        if (isinstance(t.ops[0], ast.In) and not p_) or (isinstance(t.ops[0], ast.NotIn) and p_):
+                            out.add(edge)
+    return out
+
+
+def _truth_compare_facts(test: ast.expr, pol: bool):
+    from ..flow import facts
+
+    return [(t, p_) for t, p_ in facts(test, pol) if isinstance(t, ast.Compare) and len(t.ops) == 1 and isinstance(t.ops[0], (ast.In, ast.NotIn))]
+
+
+def _preset_ids_tested(fi: FunctionInfo, cfg, ctor: ast.Call, kw: ast.expr) -> tuple[bool | None, str]:
+    st = cfg.stmt_of(ctor)
+    if isinstance(kw, (ast.List, ast.Tuple)):
+        sources = [(None, kw)]
+    elif isinstance(kw, ast.Name):
+        bs = [(b, v) for b, v, i in _bindings(fi, kw.id) if not isinstance(b, ast.AugAssign)]
+        if not bs or any(v is None or not isinstance(v, (ast.List, ast.Tuple)) for _, v in bs):
+            return None, f"`ids={kw.id}`: bindings of `{kw.id}` are not list literals"
+        sources = bs
+    else:
+        return None, f"`ids={short(kw, 30)}` is neither a list literal nor a local bound to list literals"
+    all_b = {cfg.stmt_of(b) for b, _ in sources if b is not None}
+    for b, lst in sources:
+        for e in lst.elts:
+            edges = _fresh_id_edges(fi, cfg, unparse(e))
+            if b is None:
+                ok = any(d in edges for d in cfg.dom().get(st, set()))
+            else:
+                bst = cfg.stmt_of(b)
+                ok = bool(edges) and not cfg.paths_avoiding(bst, st, lambda x: x in edges or (x in all_b and x is not bst))
+            if not ok:
+                return False, f"the preset id `{unparse(e)}` reaches `{short(ctor, 40)}` without a `{unparse(e)} not in document.ids` test"
+    return True, "every preset id is used only where it is known not to be in document.ids"
+
+
 @rule("C03.R9")
 def r9_ids_registered(corpus: Corpus, rep: Report, tier: str):
     rep.rule("C03.R9", "every id MyST gives to a node itself is registered with the document (note_*_target / set_id), so that the next id cannot collide with it; children of a scratch document are moved into the tree only with its id and footnote registries shared/merged")
@@ -3281,6 +3598,16 @@ def r9_ids_registered(corpus: Corpus, rep: Report, tier: str):
                 rep.saw_function(fi.fq)
                 if var is not None and _registered_after(fi, cfg, cfg.stmt_of(c), var):
                     rep.ok("C03.R9", key, site, f"`{var}` is registered with the document on every path")
+                    # a preset id is only *reported* by docutils when it is taken already: it must be tested first
+                    if _preset_id_only_reported(corpus):
+                        fresh, why = _preset_ids_tested(fi, cfg, c, kw)
+                        k2 = f"{fi.fq}|preset id is tested against document.ids|{short(c, 60)}"
+                        if fresh is None:
+                            rep.error("C03.R9", f"{site} {k2}: {why}")
+                        elif fresh:
+                            rep.ok("C03.R9", k2, site, why)
+                        else:
+                            rep.violation("C03.R9", k2, site, f"{why}: docutils' set_id keeps a preset id and only reports 'Duplicate ID' when another element has it already, so two elements end up with the same id")
                 else:
                     rep.violation("C03.R9", key, site, f"the node gets `ids={short(kw, 30)}` but is not registered with the document (note_explicit_target / set_id) on every path: document.ids does not know the id, so a later node can be given the same one")
             # (b) library calls that take a ready-made id and then skip the registration
@@ -3467,7 +3794,7 @@ def mutants(corpus: Corpus):
     for modname, q, mid in (("parsers.docutils_", "Parser.parse", "c03-raw-warning-hoisted-docutils"), ("parsers.sphinx_", "MystParser.parse", "c03-raw-warning-hoisted-sphinx")):
         pm = corpus.mod(modname)
         f = pm.func(q)
-        lp = find_node(f, lambda n: isinstance(n, ast.For) and any(isinstance(x, ast.Assign) and "reporter.warning" in unparse(x.value) for x in n.body) and any("replace" in unparse(x) for x in n.body))
+        lp = find_node(f, lambda n: isinstance(n, ast.For) and any(isinstance(x, ast.Assign) and "reporter.warning" in unparse(x.value) for x in n.body))
         if lp is not None:
             asg = next(x for x in lp.body if isinstance(x, ast.Assign) and "reporter.warning" in unparse(x.value))
             ind = _indent(pm, lp)
@@ -3538,7 +3865,7 @@ def mutants(corpus: Corpus):
     st = find_node(f, lambda n: isinstance(n, ast.Expr) and unparse(n.value) == "self.document.note_explicit_target(target)")
     add("c03-equation-target-not-registered", "C03.R9", sx, st, "pass", "add_math_target")
     f = base.func("DocutilsRenderer.render_math_block_label")
-    st = find_node(f, lambda n: isinstance(n, ast.Expr) and unparse(n.value) == "self.document.note_explicit_target(node, node)")
+    st = find_node(f, lambda n: isinstance(n, ast.Expr) and isinstance(n.value, ast.Call) and unparse(n.value.func) == "self.document.note_explicit_target" and n.value.args and unparse(n.value.args[0]) == "node")
     add("c03-math-label-id-written-directly", "C03.R9", base, st, "node['ids'].append(nodes.make_id(name))", "render_math_block_label")
     f = mk.func("MockInliner.parse")
     r_ = find_node(f, lambda n: isinstance(n, ast.Return) and isinstance(n.value, ast.Tuple) and len(n.value.elts) == 2 and unparse(n.value.elts[0]).endswith(".children"))
@@ -3566,6 +3893,41 @@ def mutants(corpus: Corpus):
     shared = find_node(f, lambda n: isinstance(n, ast.Assign) and isinstance(n.targets[0], ast.Attribute) and n.targets[0].attr == "ids" and isinstance(n.value, ast.Attribute) and n.value.attr == "ids")
     if shared is not None:  # only once the scratch document shares its registries (revert of that repair)
         add("c03-eval-rst-id-registry-not-shared", "C03.R9", base, shared, "pass", "scratch document")
+    # ---- round 10: reverts of the repairs landed for live C03 defects
+    sx = corpus.mod("mdit_to_docutils.sphinx_")
+    f = sx.func("SphinxRenderer.add_math_target")
+    c = find_node(f, lambda n: isinstance(n, ast.Call) and _ctor_class(f, n) == "docutils.nodes.target" and kwarg(n, "ids") is not None)
+    pre = find_node(f, lambda n: isinstance(n, ast.Assign) and isinstance(n.value, ast.List) and len(n.value.elts) == 1 and isinstance(n.targets[0], ast.Name) and c is not None and unparse(kwarg(c, "ids")) == n.targets[0].id)
+    add("c03-revert-436cf81-equation-id-preset-untested", "C03.R9", sx, kwarg(c, "ids") if c is not None and pre is not None else None, unparse(pre.value) if pre is not None else "", "preset id")
+    f = refs.func("MystReferenceResolver.resolve_myst_ref_any")
+    dcs = [n for n in f.local_nodes() if isinstance(n, ast.Call) and unparse(n) == "contnode.deepcopy()"]
+    if len(dcs) >= 2:
+        out.append(Mutant("c03-revert-a39f4dc-one-content-node-for-all-candidates", "C03.R5", refs.rel, _splice_many(refs.src, [(d, "contnode") for d in dcs]), expect="gets one parent per path"))
+    else:
+        out.append(("c03-revert-a39f4dc-one-content-node-for-all-candidates", "contnode.deepcopy() arguments not found"))
+    dm = corpus.mod("sphinx_ext.directives")
+    f = dm.func("FigureMarkdown.run")
+    rets = [n for n in f.local_nodes() if isinstance(n, ast.Return) and isinstance(n.value, ast.List) and any(isinstance(e, ast.Starred) for e in n.value.elts)]
+    if rets:
+        out.append(Mutant("c03-revert-1e0e9f4-figure-md-error-drops-content", "C03.R8", dm.rel, _splice_many(dm.src, [(r.value, "[" + ", ".join(_stmt_text(dm, e) for e in r.value.elts if not isinstance(e, ast.Starred)) + "]") for r in rets]), expect="content parsed into"))
+    else:
+        out.append(("c03-revert-1e0e9f4-figure-md-error-drops-content", "error returns carrying *node.children not found"))
+    for modname, q, mid in (("parsers.sphinx_", "MystParser.get_transforms", "c03-revert-eca02f3-contents-ids-transform-unregistered-sphinx"), ("parsers.docutils_", "Parser.get_transforms", "c03-revert-eca02f3-contents-ids-transform-unregistered-docutils")):
+        pm = corpus.mod(modname)
+        f = pm.func(q)
+        nm = find_node(f, lambda n: isinstance(n, ast.Name) and n.id == "UniqueContentsIds")
+        add(mid, "C03.R7", pm, nm, "HideNestedTransitions", "registers the transform")
+    ucls = tf.classes.get("UniqueContentsIds")
+    pr = next((st_ for st_ in ucls.node.body if isinstance(st_, ast.Assign) and unparse(st_.targets[0]) == "default_priority"), None) if ucls is not None else None
+    add("c03-contents-ids-transform-runs-before-contents", "C03.R7", tf, pr.value if pr is not None else None, "719", "contents directive")
+    f = tf.func("ResolveAnchorIds.apply")
+    tests = [n for n in f.local_nodes() if isinstance(n, ast.BoolOp) and isinstance(n.op, ast.And) and len(n.values) == 2 and unparse(n.values[1]).endswith(" in tree_ids")]
+    if len(tests) >= 2:
+        tests.sort(key=lambda n: n.lineno)
+        add("c03-revert-6e5f09e-explicit-id-not-confirmed-in-tree", "C03.R3", tf, tests[0], unparse(tests[0].values[0]), "element in the tree")
+        add("c03-revert-6e5f09e-slug-id-not-confirmed-in-tree", "C03.R3", tf, tests[1], unparse(tests[1].values[0]), "element in the tree")
+    else:
+        out.append(("c03-revert-6e5f09e-explicit-id-not-confirmed-in-tree", "`... in tree_ids` tests not found"))
     # ---- R8: rendering into a node that is only read as text / never attached
     f = base.func("DocutilsRenderer.render_image")
     st = find_node(f, lambda n: isinstance(n, ast.Assign) and isinstance(n.value, ast.Call) and unparse(n.value.func) == "self.renderInlineAsText")
